@@ -60,6 +60,10 @@ def gen_cases(rng, tier):
         add([2] + list(t)); add([3] + list(t))
     for t in itertools.product(ft, repeat=2):
         add([4] + list(t))
+    # Color::from_rgba: Some exactly when every channel is in [0, 1] (NaN, infinities, -1 ulp, 1 + 1 ulp rejected)
+    CT = [0, NZERO, f2b(1.0), f2b(1.0) + 1, f2b(1.0) - 1, f2b(0.5), 0x7fc00000, 0xffc00000, 0x7f800000, 0xff800000, 1, 0x80000001, f2b(-1.0), f2b(2.0), f2b(0.25)]
+    for t in itertools.product(CT, repeat=4) if tier != "quick" else [tuple(rng.choice(CT) for _ in range(4)) for _ in range(4000)]:
+        add([40] + list(t))
     for t in ft + [f2b(x) for x in (0.3, 0.5, 0.7, 1.5, 2.5, -0.5, -1.5, -2.5, 16777216.0, 2147483648.0, -2147483904.0, 4294967296.0)]:
         add([11, t])
     n = 6000 if tier == "quick" else 80000
@@ -164,6 +168,13 @@ def oracle(suite, args, out):
     if k == 2:
         if not none and not valid_rect_bits(o) and not in_band(o):
             return "from_xywh returned an invalid Rect"
+        return None
+    if k == 40:
+        doc = all(fin(x) and 0 <= Q(x) <= 1 for x in a)
+        if none == doc:
+            return "Color::from_rgba returned %s for channels %r although %s" % ("None" if none else "Some", [b2f(x) for x in a], "all are in [0,1]" if doc else "one is outside [0,1] or not a number")
+        if not none and [x & 0xffffffff for x in o] != [x & 0xffffffff for x in a]:
+            return "Color::from_rgba changed a channel"
         return None
     if k == 4:
         doc = all(fin(x) and Q(x) > 0 for x in a)
